@@ -457,7 +457,11 @@ class Repo:
         ck = ("canon", f.key)
         cache = self.__dict__.setdefault("_canon_cache", {}) if hasattr(self, "__dict__") else {}
         if ck not in cache:
-            cache[ck] = canonical(inlined(self, f))
+            exp = inlined(self, f)
+            cache[ck] = canonical(exp)
+            cache[("expanded", f.key)] = exp is not f.node
+        if cache.get(("expanded", f.key)):
+            self.inline_hits = getattr(self, "inline_hits", 0) + 1
         node = cache[ck]
         import copy as _copy
 
